@@ -257,3 +257,12 @@ M("r2d-benign-flags-order", ["C17", "C14"], "benign",
 M("r3f-realloc-frees-on-failure", ["C17"], "break",
   [("allocate.c", "  result = allocator->realloc (ptr, size);\n  if ((result == NULL) && (size != 0))\n    allocator->alloc_error (allocator->userptr);",
     "  result = allocator->realloc (ptr, size);\n  if ((result == NULL) && (size != 0))\n    {\n      allocator->free (ptr);\n      allocator->alloc_error (allocator->userptr);\n    }")], "yaep_realloc/calls-free")
+
+# ---- R14 pointer invalidation ------------------------------------------------------------------------
+M("r14-sit-table-stale", ["C12"], "break",
+  [("yaep.c", "      bound = (struct sit ***) VLO_BOUND (sit_table_vlo);\n      context_sit_table_ptr = sit_table + context;", "      bound = (struct sit ***) VLO_BOUND (sit_table_vlo);")], "sit_create/")
+M("r14-core-symb-table-stale", ["C12"], "break",
+  [("yaep.c", "      core_symb_table\n	= (struct core_symb_vect ***) VLO_BEGIN (core_symb_table_vlo);\n      core_symb_vect_ptr = core_symb_table + set_core->num;\n      bound = (struct core_symb_vect ***) VLO_BOUND (core_symb_table_vlo);",
+    "      core_symb_table\n	= (struct core_symb_vect ***) VLO_BEGIN (core_symb_table_vlo);\n      bound = (struct core_symb_vect ***) VLO_BOUND (core_symb_table_vlo);")], "core_symb_vect_addr_get/")
+M("r14-toks-cache-not-refreshed", ["C12"], "break",
+  [("yaep.c", "  VLO_ADD_MEMORY (toks_vlo, &tok, sizeof (struct tok));\n  toks = (struct tok *) VLO_BEGIN (toks_vlo);", "  VLO_ADD_MEMORY (toks_vlo, &tok, sizeof (struct tok));")], "toks")
